@@ -97,7 +97,7 @@ def random_corpus(ctx, n, base_texts):
 
 def fence_corpus(maxlines=4):
     """`---` fence pairs at every line position of small documents (C05 family)"""
-    lines = ["a\n", "---\n", "k: v\n", ">> m: n\n", "@b{1}\n", "\n", "--- \n", "-- c\n", "= s\n", "é: ü\n"]
+    lines = ["a\n", "---\n", "k: v\n", ">> m: n\n", "@b{1}\n", "\n", "--- \n", "-- c\n", "= s\n", "é: ü\n", " ---\n"]
     out = []
     import itertools
     for n in range(1, maxlines + 1):
@@ -112,6 +112,11 @@ def fence_corpus(maxlines=4):
     yaml = ["k: v\n", "title: Bread\n", "é: ü\n", "tags: [a, b]\n"]
     body = ["step @a{1}\n", ">> m: n\n", "\n", "---\n"]
     # the YAML text may start or end with blank / indented lines (its span must still be the input slice)
+    # a `---` line inside a block scalar is indented: it is YAML text, not a fence
+    for y in ["d: |\n  x\n  ---\n  y\n", "d: >\n  a\n\t---\n  b\nk: v\n", "d: |\n  ---\n"]:
+        t = "---\n" + y + "---\nstep @a{1}\n"
+        out.append(dict(text=t, src="frontmatter"))
+        out.append(dict(text=t.replace("\n", "\r\n"), src="frontmatter"))
     for lead in ["\n", "  \n", "\n\n", " k2: w\n", "é: ü\n\n"]:
         for y in yaml + ["time: x\n", "servings: [1, 1]\n", "a: [\n"]:
             for tail in ["", "\n", " \n"]:
@@ -205,11 +210,29 @@ def _common_evidence(ctx, recs, obs, what):
                        "char classes of the symbol alphabet are those of Rust's char / finl_unicode (self-checked at start-up)"]
 
 
+def _kernel_phase(ctx, prop, cfg):
+    """the inputs of the parser kernels under extension subsets that switch single gates: inside braces and after a
+    marker the span arithmetic is its own (quantity value and unit, modifiers, notes, aliases)"""
+    from . import p_parser
+    kin = [dict(input=x, src="parser-kernels") for x in p_parser.kernel_strings(p_parser.KERNELS[ctx.tier])]
+    if len(kin) > 400000:
+        import random
+        kin = random.Random(ctx.seed).sample(kin, 400000)
+    pin = os.path.join(ctx.work, "kin.ndjson")
+    pout = os.path.join(ctx.work, "kspans.ndjson")
+    core.write_ndjson(pin, kin)
+    core.run_harness(ctx, ["spans", "--in", pin, "--out", pout, "--ext", "all,1770,3298,2"])
+    obs = core.read_ndjson(pout)
+    judge(ctx, prop, cfg, pout, obs)
+    ctx.extra["parser_kernel_inputs_through_the_span_recorder"] = len(kin)
+
+
 def check_c04(ctx):
     core.build_harness()
     recs = _corpus(ctx, want_fences=True)
     pout, obs = _spans_run(ctx, recs, "none,all")
     judge(ctx, "C04", "Trace_Parse_C04.cfg", pout, obs)
+    _kernel_phase(ctx, "C04", "Trace_Parse_C04.cfg")
     _common_evidence(ctx, recs, obs, "multi-byte characters are adjacent to every marker in both orders at length <= 3")
     ctx.extra["exhaustive"] = True
     from . import p_parser
@@ -221,6 +244,7 @@ def check_c05(ctx):
     recs = _corpus(ctx, want_fences=True)
     pout, obs = _spans_run(ctx, recs, "none,all")
     judge(ctx, "C05", "Trace_Parse_C05.cfg", pout, obs)
+    _kernel_phase(ctx, "C05", "Trace_Parse_C05.cfg")
     _common_evidence(ctx, recs, obs, "plus `---` fence lines at every line position of documents of up to 4 lines")
     ctx.extra["exhaustive"] = True
 
